@@ -279,11 +279,21 @@ func runForest(c *core.Ctx, s fScenario, setupFail failFn, obs fObserver) *World
 			default: // a true hash claimed at its sibling's position
 				bad.Targets[oi%len(bad.Targets)] ^= 1
 			}
-			if _, err := u.Verify(w.Stump, cloneHashes(dh), cloneProof(bad)); err == nil {
+			if err, stuck := stepGuard(f.H, len(bad.Targets), func() error {
+				_, e := u.Verify(w.Stump, cloneHashes(dh), cloneProof(bad))
+				return e
+			}); err == nil || stuck {
+				if stuck {
+					c.Count("refused_verify_calls_cut_off_by_the_step_budget", 1)
+				}
 				continue // the damage happens to leave a valid proof (e.g. the sibling is a target too)
 			}
 			for _, in := range w.Insts {
-				err := in.U.Verify(cloneHashes(dh), cloneProof(bad), true)
+				err, stuck := stepGuard(f.H, len(bad.Targets), func() error { return in.U.Verify(cloneHashes(dh), cloneProof(bad), true) })
+				if stuck {
+					c.Count("refused_verify_calls_cut_off_by_the_step_budget", 1)
+					continue
+				}
 				if err == nil {
 					fail(in.Cfg.Kind+".Verify(remember)", "accepted-a-proof-the-stand-alone-verifier-rejects", "", fmt.Sprintf("%s: hashes %s %s", in.Name, hashesStr(dh), proofStr(bad)))
 				}
@@ -299,7 +309,9 @@ func runForest(c *core.Ctx, s fScenario, setupFail failFn, obs fObserver) *World
 						}
 					}
 					if op.K == 0 || op.K == 3 { // the damage is in the claim itself, so this call must be refused too
-						if err := in.MP.VerifyPartialProof(cloneU64(bad.Targets), cloneHashes(dh), ph, true); err == nil {
+						if err, stuck := stepGuard(f.H, len(bad.Targets), func() error {
+							return in.MP.VerifyPartialProof(cloneU64(bad.Targets), cloneHashes(dh), ph, true)
+						}); err == nil && !stuck {
 							if ok, _ := claimTrue(f, claim{Hashes: dh, Targets: bad.Targets}); !ok {
 								fail(in.Cfg.Kind+".VerifyPartialProof(remember)", "accepted-a-false-claim", "", fmt.Sprintf("%s: hashes %s targets %v", in.Name, hashesStr(dh), bad.Targets))
 							}
